@@ -195,6 +195,14 @@ def run(ctx):
     glob = {}
     for fname in mod.functions:
         glob[fname] = Token('fn:' + fname)
+    # module-level constant tables (NAME = <display of constants / functions>), in source order
+    for st in mod.tree.body:
+        if isinstance(st, ast.Assign) and len(st.targets) == 1 and \
+                isinstance(st.targets[0], ast.Name):
+            try:
+                glob[st.targets[0].id] = Mini(glob).expr(st.value, {})
+            except (Unsupported, Raised):
+                pass
 
     def super_init(self_obj, meth, args):
         # axiom: collections.UserDict.__init__ creates the empty ``data`` dict
